@@ -137,6 +137,26 @@ def check_instance(mon, o):
     mon.extra["operations_checked"] = mon.extra.get("operations_checked", 0) + int(o.nsymop)
 
 
+class Table(object):
+    """the tabulated group read straight from the xfab.sglib class (not through xfab.sg.sg): the oracles of C07, C08,
+    C15 and C17 take their operations from here, so that a lookup / routing / caching defect in xfab.sg cannot make
+    the oracle agree with the code under test"""
+    def __init__(self, no, setting):
+        from xfab import sglib
+        obj = getattr(sglib, "Sg%d" % no)(cell_choice="rhombohedral" if setting == "rhombohedral" else "standard")
+        self.no, self.name, self.crystal_system, self.Laue = obj.no, obj.name, obj.crystal_system, obj.Laue
+        self.nsymop, self.nuniq, self.cell_choice = obj.nsymop, obj.nuniq, obj.cell_choice
+        self.rot, self.trans, self.syscond = np.array(obj.rot), np.array(obj.trans), np.array(obj.syscond)
+
+
+def table_by_name(key):
+    """name -> Table with the documented rule: dictionary entry gives the number, R...r means rhombohedral axes"""
+    from xfab import sg as sgmod
+    k = "".join(str(key).split()).lower()
+    no = int(sgmod.sgdic[k][2:])
+    return Table(no, "rhombohedral" if (k[0] == "r" and k[-1] == "r") else "standard")
+
+
 def install_invariant(ctx):
     """used by every property whose workload instantiates space groups"""
     from xfab import sg as sgmod
@@ -288,6 +308,12 @@ def case_dict_entry(ctx, p):
             back = "".join(str(obj.name).split()).lower()
             if ctx.sgmod.sgdic.get(back) != klass_name:
                 bad.append("name %r of %s does not map back (sgdic[%r] = %r)" % (obj.name, klass_name, back, ctx.sgmod.sgdic.get(back)))
+    if klass is not None:
+        # the key itself must be a spelling of the name the class carries (R groups: bare, ...h or ...r)
+        std = "".join(str(klass(cell_choice="standard").name).split()).lower()
+        rh = "".join(str(klass(cell_choice="rhombohedral").name).split()).lower()
+        if key not in (std, std + "h", rh):
+            bad.append("key %r points to %s, whose name is %r / %r" % (key, klass_name, std, rh))
     mon.check("sweep:dictionary entry consistent with its class", not bad, detail="; ".join(bad) or None, observed=None if not bad else key)
 
 
